@@ -27,7 +27,7 @@ Ltac inv_pair :=
 
 (* ---- primitives leave the allocator alone -------------------------------- *)
 
-Lemma dev_write_al w s o d w' n e : dev_write w s o d = (w', n, e) ->
+Lemma dev_write_al w ss s o d w' n e : dev_write w ss s o d = (w', n, e) ->
   w_al w' = w_al w /\ n <= length d /\ (e = ENone -> n = length d) /\ (e <> ENone -> n < length d \/ d = []).
 Proof.
   unfold dev_write. destruct (tick (w_fw w)) as [[[p m]|] o'] eqn:T; intros [= <- <- <-]; cbn.
@@ -35,7 +35,7 @@ Proof.
   - splits; auto; try lia. intros H; now elim H.
 Qed.
 
-Lemma dev_read_al w s o n w' d e : dev_read w s o n = (w', d, e) -> w_al w' = w_al w.
+Lemma dev_read_al w ss s o n w' d e : dev_read w ss s o n = (w', d, e) -> w_al w' = w_al w.
 Proof.
   unfold dev_read. destruct (tick (w_fr w)) as [[[p m]|] o'] eqn:T; intros [= <- <- <-]; reflexivity.
 Qed.
@@ -55,8 +55,8 @@ Qed.
 
 Ltac al_facts :=
   repeat match goal with
-  | H : dev_write _ _ _ _ = (_, _, _) |- _ => apply dev_write_al in H; destruct H as (? & ? & ? & ?)
-  | H : dev_read _ _ _ _ = (_, _, _) |- _ => apply dev_read_al in H
+  | H : dev_write _ _ _ _ _ = (_, _, _) |- _ => apply dev_write_al in H; destruct H as (? & ? & ? & ?)
+  | H : dev_read _ _ _ _ _ = (_, _, _) |- _ => apply dev_read_al in H
   | H : read_hole _ _ _ _ _ _ = (_, _, _) |- _ => apply read_hole_al in H
   | H : hole_call _ _ _ = (_, _) |- _ => apply hole_call_al in H
   end.
@@ -288,7 +288,7 @@ Proof.
            ++ eapply (aligned o c ss n1 (length p)); eauto; lia.
       * destruct EW as (Ha1 & He). intros [= <- <- <- <-]. splits; auto; try lia. intros ->. congruence.
     + (* overwrite *)
-      destruct (dev_write w (pred sector) o _) as [[w1 n1] e1] eqn:ED.
+      destruct (dev_write w ss (pred sector) o _) as [[w1 n1] e1] eqn:ED.
       apply dev_write_al in ED as (Hal & Hn1 & Hok & _). rewrite Hlp' in *.
       intros [= <- <- <- <-]. rewrite Hal. unfold limit in *. splits; auto; try lia.
       intros He. specialize (Hok He). split; [lia|]. intros Hlt.
